@@ -1221,6 +1221,26 @@ CMR_ERROR CMRseymourUpdateTwosum(CMR* cmr, CMR_SEYMOUR_NODE* node, CMR_SEPA* sep
     CMR_CALL( updateChildMatrix(cmr, node, childIndex) );
   }
 
+  if (node->isTernary)
+  {
+    /* The children are M_1 = [A; c^T] and M_2 = [d D] with the bottom-left part of the matrix equal to d c^T. Both c^T and
+     * d are taken from the matrix itself, so their product is the bottom-left part scaled by the entry in which they
+     * intersect. If that entry is -1, we negate d. */
+    size_t extraRow = CMRelementToRowIndex(node->childRowsToParent[0][node->children[0]->numRows - 1]);
+    size_t extraColumn = CMRelementToColumnIndex(node->childColumnsToParent[1][0]);
+    size_t entry;
+    CMR_CALL( CMRchrmatFindEntry(node->matrix, extraRow, extraColumn, &entry) );
+    if (entry != SIZE_MAX && node->matrix->entryValues[entry] == -1)
+    {
+      CMR_CHRMAT* second = node->children[1]->matrix;
+      for (size_t e = 0; e < second->numNonzeros; ++e)
+      {
+        if (second->entryColumns[e] == 0)
+          second->entryValues[e] *= -1;
+      }
+    }
+  }
+
   return CMR_OKAY;
 }
 
